@@ -5,5 +5,14 @@ CHECKS = {
     "C01": ("bounded-exhaustive enumeration (deviation-bounded choice exploration) of generated programs, each executed on the real parser",
             "every program of model G within the stated deviation/depth bounds is parsed, printed, re-parsed and re-printed under both standards and both comment settings; no sampling",
             _NOTE, "DESIGN.md 4/C01"),
+    "C10": ("bounded-exhaustive enumeration of generated programs; structural invariants evaluated on every node of every tree (first parse and re-parse)",
+            "every tree produced for model G within the bounds (both standards, comments kept/dropped, plus backtracking-heavy inputs) satisfies the parent/children/get_root/walk invariants on every node",
+            _NOTE, "DESIGN.md 4/C10"),
+    "C17": ("bounded-exhaustive enumeration of generated F2003 and F2008-only programs, each parsed under both standards",
+            "every F2003 program of model G regenerates to the same text under both parsers; every F2008-only program (incl. each F2008-only construct in every construct context of depth <= 2) is rejected by f2003 and accepted by f2008",
+            _NOTE + "; which programs are F2008-only is decided by the model", "DESIGN.md 4/C17"),
+    "C18": ("bounded-exhaustive enumeration of generated programs; deepcopy and pickle round trip of every tree",
+            "every tree of model G (comments dropped / kept / directives processed, plus a CPP/include corpus) is deep-copied and pickled; text, structure, well-formedness, node disjointness and mutation independence are checked",
+            _NOTE, "DESIGN.md 4/C18"),
 }
 NOT_BUILT = {("C%02d" % i): "check not built yet in this round (planned, see DESIGN.md section 4)" for i in range(1, 21) if ("C%02d" % i) not in CHECKS}
